@@ -143,3 +143,30 @@ def sany(path):
     out = p.stdout.decode('utf-8', 'replace')
     ok = p.returncode == 0 and 'error' not in out.lower().replace('errors: 0', '')
     return ok, out
+
+
+def parse_fails(output):
+    """All <<"FAIL", line, id, clauses>> tuples printed by a total trace spec.  TLC wraps long values over several
+    lines, so tuples are recovered by bracket matching. Returns [(line, id, clauses_text)]."""
+    import re as _re
+    out = []
+    text = output
+    for m in _re.finditer(r'<<\s*"FAIL"\s*,', text):
+        i, depth, j = m.start(), 0, m.start()
+        while j < len(text):
+            if text.startswith('<<', j):
+                depth += 1
+                j += 2
+                continue
+            if text.startswith('>>', j):
+                depth -= 1
+                j += 2
+                if depth == 0:
+                    break
+                continue
+            j += 1
+        body = ' '.join(text[i:j].split())
+        mm = _re.match(r'<<\s*"FAIL"\s*,\s*(\d+)\s*,\s*(\d+)\s*,\s*(.*)>>$', body)
+        if mm:
+            out.append((int(mm.group(1)), int(mm.group(2)), mm.group(3).strip()))
+    return out
